@@ -21,6 +21,8 @@
 //	          | Kill(process dies between two operations; new manager on the surviving files)
 //	outage    a set of requests the server does not answer, named by
 //	          (session, status type, occurrence), or "down throughout"
+//	hold      one request whose answer stays outstanding (the server has accepted it, the sender waits)
+//	          while the following operations run, released before a later operation
 //	crash     "before step k" for every environment step k (mutating file
 //	          operation or request transmission) of the crash-free execution,
 //	          "after the last step", and for WriteFile steps the torn variants
@@ -124,6 +126,11 @@ type rec struct {
 	AckSeen   bool // the client saw the answer (false if the process died first)
 	Epilogue  bool
 	Epoch     int
+	Op        int // history operation during which the request was transmitted (-1 = startup)
+	Held      bool
+	SendSeq   int // position of the transmission in the event order (transmissions, receptions, answers seen)
+	RecvSeq   int // position of the reception in the server's event order
+	AckSeq    int // position of the moment the client saw the answer (0 = never)
 }
 
 func (r *rec) String() string {
@@ -209,6 +216,12 @@ type faults struct {
 	Drops []string // request keys the server does not answer
 	Down  bool     // server down throughout (also after the history)
 	Crash crashPlan
+	// Hold: the server receives and accepts this request but its answer stays outstanding until it is
+	// released right before history operation number ReleaseAt (len(ops) = after the history). The sender
+	// is blocked meanwhile (a durable block inside the bubble), so further operations run while the
+	// answer is in flight; the client's own timeout may end the wait first (answer lost).
+	Hold      string
+	ReleaseAt int
 }
 
 func (f faults) String() string {
@@ -218,6 +231,9 @@ func (f faults) String() string {
 	}
 	if f.Crash.At >= 0 {
 		s += fmt.Sprintf(" crash@%d:%s", f.Crash.At, f.Crash.Mode)
+	}
+	if f.Hold != "" {
+		s += fmt.Sprintf(" hold-answer-of=%s release-before-op=%d", f.Hold, f.ReleaseAt)
 	}
 	return s
 }
@@ -240,13 +256,17 @@ type env struct {
 	recs      []*rec
 	epoch     int
 	decodeErr string
+	curOp     int
+	seq       int
+	holdCh    chan struct{}
+	released  bool
 }
 
 var envSeq atomic.Int64
 
 func newEnv(f faults) *env {
 	id := fmt.Sprintf("i%d", envSeq.Add(1))
-	e := &env{id: id, prefix: "/vfs/" + id, addr: id + ":1813", fs: vfs.New(), f: f, drops: map[string]bool{}, occ: map[string]int{}}
+	e := &env{id: id, prefix: "/vfs/" + id, addr: id + ":1813", fs: vfs.New(), f: f, drops: map[string]bool{}, occ: map[string]int{}, curOp: -1}
 	for _, d := range f.Drops {
 		e.drops[d] = true
 	}
@@ -256,7 +276,7 @@ func newEnv(f faults) *env {
 	return e
 }
 
-func (e *env) release() {
+func (e *env) unmount() {
 	vfs.Unmount(e.prefix)
 	vradius.Unregister(e.addr)
 }
@@ -308,7 +328,7 @@ func (e *env) exchange(ctx context.Context, p *lradius.Packet, addr string) (*lr
 		e.mu.Unlock()
 		return nil, errCrashed
 	}
-	r := &rec{N: len(e.recs), Step: e.step, Epilogue: e.epilogue, Epoch: e.epoch}
+	r := &rec{N: len(e.recs), Step: e.step, Epilogue: e.epilogue, Epoch: e.epoch, Op: e.curOp}
 	if err == nil {
 		err = decode(wire, r)
 	}
@@ -328,21 +348,54 @@ func (e *env) exchange(ctx context.Context, p *lradius.Packet, addr string) (*lr
 		return nil, errCrashed
 	}
 	r.Delivered = true
+	e.seq++
+	r.SendSeq = e.seq
 	if !e.serverUp && (e.f.Down || e.drops[r.Key]) {
 		e.mu.Unlock()
 		<-ctx.Done() // the server stays silent: the client's own timeout ends the exchange
 		return nil, ctx.Err()
 	}
 	r.Accepted = true
+	e.seq++
+	r.RecvSeq = e.seq
 	if k == e.f.Crash.At {
 		e.crashed = true
 		e.crashDesc = "after Send(" + r.Key + ") was answered"
 		e.mu.Unlock()
 		return nil, errCrashed
 	}
+	if e.f.Hold == r.Key && !e.released && !e.serverUp {
+		// the answer is outstanding: the sender waits for it (or for its own timeout / cancellation)
+		r.Held = true
+		ch := make(chan struct{})
+		e.holdCh = ch
+		e.mu.Unlock()
+		select {
+		case <-ch:
+		case <-ctx.Done():
+			return nil, ctx.Err() // answer lost: the server has the record, the client does not know
+		}
+		e.mu.Lock()
+		if e.crashed {
+			e.mu.Unlock()
+			return nil, errCrashed
+		}
+	}
 	r.AckSeen = true
+	e.seq++
+	r.AckSeq = e.seq
 	e.mu.Unlock()
 	return p.Response(lradius.CodeAccountingResponse), nil
+}
+
+// release lets the held answer go out.
+func (e *env) releaseHeld() {
+	e.mu.Lock()
+	if e.holdCh != nil && !e.released {
+		close(e.holdCh)
+	}
+	e.released = true
+	e.mu.Unlock()
 }
 
 func (e *env) isCrashed() bool { e.mu.Lock(); defer e.mu.Unlock(); return e.crashed }
@@ -358,9 +411,10 @@ type viol struct{ Kind, Site, Detail, Sess string }
 
 type outcome struct {
 	Viols      []viol
-	Steps      int      // environment steps during the history (crash-free executions)
-	StepDesc   []string // their descriptions
-	Keys       []string // request keys delivered during the history
+	Steps      int            // environment steps during the history (crash-free executions)
+	StepDesc   []string       // their descriptions
+	Keys       []string       // request keys delivered during the history
+	KeyOp      map[string]int // history operation during which each of them was transmitted
 	Crashed    bool
 	CrashDesc  string
 	CrashOp    string   // history operation in progress at the crash
@@ -475,15 +529,22 @@ func (x *exec) apply(op string) {
 // run executes one scenario inside the current synctest bubble.
 func run(sc scenario) outcome {
 	e := newEnv(sc.F)
-	defer e.release()
+	defer e.unmount()
 	x := &exec{e: e, invoked: map[int]bool{}, startedOK: map[int]bool{}, stopCalled: map[int]bool{}, ended: map[int]bool{}}
 	x.out.CrashOp = "(startup)"
 	x.newManager()
 	synctest.Wait()
-	for _, op := range sc.Ops {
+	for i, op := range sc.Ops {
 		if e.isCrashed() {
 			break
 		}
+		if sc.F.Hold != "" && i == sc.F.ReleaseAt {
+			e.releaseHeld()
+			synctest.Wait()
+		}
+		e.mu.Lock()
+		e.curOp = i
+		e.mu.Unlock()
 		x.out.CrashOp = op
 		x.apply(op)
 		x.out.OpsApplied++
@@ -494,9 +555,11 @@ func run(sc scenario) outcome {
 	e.mu.Lock()
 	x.out.Steps = e.step
 	x.out.StepDesc = append([]string{}, e.stepDesc...)
+	x.out.KeyOp = map[string]int{}
 	for _, r := range e.recs {
 		if r.Delivered {
 			x.out.Keys = append(x.out.Keys, r.Key)
+			x.out.KeyOp[r.Key] = r.Op
 		}
 	}
 	crashed := e.crashed
@@ -525,6 +588,8 @@ func run(sc scenario) outcome {
 		x.newManager()
 		synctest.Wait()
 	}
+	e.releaseHeld()
+	synctest.Wait()
 	e.mu.Lock()
 	e.epilogue = true
 	if !sc.F.Down {
@@ -597,7 +662,16 @@ func (x *exec) check(sc scenario) {
 	}
 	var stream []string
 	accStart, accStop := map[int]int{}, map[int]int{} // first accepted positions (+1)
-	ackedStop := map[int]int{}
+	// A4 needs real-time order: a Stop is "already acknowledged" from the moment the client saw the answer
+	// (AckSeq), which with a held answer can be later than the transmission of other records
+	firstAck := map[int]*rec{}
+	for _, r := range recs {
+		if i := sessIndex(r.Sess); i >= 0 && r.Typ == typStop && r.AckSeen {
+			if o, ok := firstAck[i]; !ok || r.AckSeq < o.AckSeq {
+				firstAck[i] = r
+			}
+		}
+	}
 	for _, r := range recs {
 		if !r.Delivered {
 			continue
@@ -624,15 +698,17 @@ func (x *exec) check(sc scenario) {
 		}
 		// A4
 		if r.Typ == typStop && !x.out.Crashed && x.kills == 0 {
-			if p, ok := ackedStop[i]; ok {
-				x.vs(r.Sess, "A4-stop-retransmitted", site, "Stop for %s transmitted again (%v) after the server acknowledged record #%d", r.Sess, r, p-1)
+			if o, ok := firstAck[i]; ok && r.SendSeq > o.AckSeq {
+				x.vs(r.Sess, "A4-stop-retransmitted", site, "Stop for %s transmitted again (%v) after the server acknowledged record #%d", r.Sess, r, o.N)
 			}
 		}
 		if r.Accepted {
 			stream = append(stream, fmt.Sprintf("%d:%s", r.Typ, r.Sess))
 			switch r.Typ {
 			case typStart:
-				if p, ok := accStop[i]; ok {
+				// "never before its Start": the Stop was accepted while no Start of the session had been
+				// (a repeated Start arriving after the Stop of a properly started session is not this clause)
+				if p, ok := accStop[i]; ok && accStart[i] == 0 {
 					x.vs(r.Sess, "A2-start-after-stop", site, "Start for %s accepted (%v) after its Stop had been accepted (record #%d)", r.Sess, r, p-1)
 				}
 				if _, ok := accStart[i]; !ok {
@@ -641,11 +717,6 @@ func (x *exec) check(sc scenario) {
 			case typStop:
 				if _, ok := accStop[i]; !ok {
 					accStop[i] = r.N + 1
-				}
-				if r.AckSeen {
-					if _, ok := ackedStop[i]; !ok {
-						ackedStop[i] = r.N + 1
-					}
 				}
 			}
 		}
@@ -765,11 +836,12 @@ type bounds struct {
 	// longer histories are explored with fewer simultaneous deviations
 	dropsAtLen map[int]int
 	torn       bool
+	holdCrash  bool // also enumerate crash points under every held-answer scenario
 	budget     time.Duration
 }
 
 type counters struct {
-	execs, ops, scenarios, crashRuns, histories atomic.Int64
+	execs, ops, scenarios, crashRuns, histories, holds atomic.Int64
 }
 
 type driver struct {
@@ -820,7 +892,7 @@ func (d *driver) report(sc scenario, out outcome, v viol) {
 	trace = append(trace, "| accepted: "+out.Stream)
 	rv := report.Violation{Part: d.part, Kind: v.Kind, Site: v.Site, Detail: v.Detail, Config: sc.F.String(), Trace: trace,
 		Extra: map[string]any{"ops": sc.Ops, "drops": sc.F.Drops, "down": sc.F.Down, "crash_at": sc.F.Crash.At, "crash_mode": sc.F.Crash.Mode,
-			"crash_desc": out.CrashDesc, "crash_op": out.CrashOp, "sess": v.Sess, "unanswered": out.Unanswered, "crashed": out.Crashed, "epochs": out.Epochs}}
+			"hold": sc.F.Hold, "release_at": sc.F.ReleaseAt, "crash_desc": out.CrashDesc, "crash_op": out.CrashOp, "sess": v.Sess, "unanswered": out.Unanswered, "crashed": out.Crashed, "epochs": out.Epochs}}
 	classify(&rv)
 	d.run.Violation(rv)
 }
@@ -875,6 +947,29 @@ func (d *driver) history(ops []string) {
 		}
 		frontier = next
 	}
+	// one answer outstanding: for every request of the deviation-free execution, the server accepts it but
+	// its answer is held while the following operations run; released before operation r, for every later r
+	if len(all) > 0 {
+		base := d.one0(ops)
+		for _, k := range uniq(base.Keys) {
+			from := base.KeyOp[k] + 1
+			if from < 1 {
+				from = 1
+			}
+			for r := from; r <= len(ops); r++ {
+				if d.overBudget() {
+					return
+				}
+				f := faults{Hold: k, ReleaseAt: r, Crash: crashPlan{At: -1}}
+				out := d.one(scenario{ops, f})
+				d.cnt.scenarios.Add(1)
+				d.cnt.holds.Add(1)
+				if len(out.Viols) == 0 && d.b.holdCrash {
+					d.crashes(ops, faults{Hold: k, ReleaseAt: r}, out)
+				}
+			}
+		}
+	}
 	// server down throughout
 	if d.overBudget() {
 		return
@@ -884,6 +979,12 @@ func (d *driver) history(ops []string) {
 	if len(out.Viols) == 0 {
 		d.crashes(ops, faults{Down: true}, out)
 	}
+}
+
+// one0: the deviation-free execution of a history (for its request keys); not counted twice in the statistics.
+func (d *driver) one0(ops []string) outcome {
+	out, _ := bubble(d.t, scenario{ops, faults{Crash: crashPlan{At: -1}}})
+	return out
 }
 
 func uniq(s []string) []string {
@@ -947,7 +1048,7 @@ func (d *driver) explore() report.Part {
 		Bound: fmt.Sprintf("sessions<=%d history-length<=%d unanswered-requests<=%d (by length: %v) + down-throughout; crash before every env step + after last%s",
 			d.b.maxSess, d.b.maxLen, d.b.maxDrops, d.b.dropsAtLen, map[bool]string{true: " + torn WriteFile {empty,half}", false: ""}[d.b.torn]),
 		States: int64(len(d.sigs)), Transitions: d.cnt.ops.Load(), Executions: d.cnt.execs.Load(), Outcomes: int64(len(d.sigs)), Exhaustive: !d.capped.Load(),
-		Note: fmt.Sprintf("histories=%d (history,outage) scenarios=%d crash executions=%d; states = distinct (accepted record stream, final files) outcomes", d.cnt.histories.Load(), d.cnt.scenarios.Load(), d.cnt.crashRuns.Load())}
+		Note: fmt.Sprintf("histories=%d (history,outage) scenarios=%d crash executions=%d held-answer scenarios=%d (every request of the deviation-free execution x every later release point); states = distinct (accepted record stream, final files) outcomes", d.cnt.histories.Load(), d.cnt.scenarios.Load(), d.cnt.crashRuns.Load(), d.cnt.holds.Load())}
 	if d.capped.Load() {
 		p.Note += fmt.Sprintf("; wall-clock budget %v hit", d.b.budget)
 	}
@@ -1111,7 +1212,8 @@ func classify(v *report.Violation) {
 			return
 		}
 	}
-	if v.Kind == "A4-stop-retransmitted" && !crashed && epochs == 0 {
+	hold, _ := v.Extra["hold"].(string)
+	if v.Kind == "A4-stop-retransmitted" && !crashed && epochs == 0 && hold == "" {
 		ops, _ := v.Extra["ops"].([]string)
 		graceful := false
 		for _, op := range ops {
@@ -1154,7 +1256,7 @@ func classify(v *report.Violation) {
 
 func tierBounds(thorough bool) bounds {
 	if thorough {
-		return bounds{maxSess: 3, maxLen: 5, maxDrops: 3, dropsAtLen: map[int]int{4: 2, 5: 2}, torn: true, budget: 16 * time.Minute}
+		return bounds{maxSess: 3, maxLen: 5, maxDrops: 3, dropsAtLen: map[int]int{4: 2, 5: 2}, torn: true, holdCrash: true, budget: 16 * time.Minute}
 	}
 	return bounds{maxSess: 2, maxLen: 4, maxDrops: 2, dropsAtLen: map[int]int{4: 1}, torn: true, budget: 50 * time.Second}
 }
@@ -1209,6 +1311,9 @@ func replay(t *testing.T, run *report.Run) int {
 	at, _ := v.Extra["crash_at"].(float64)
 	sc.F.Crash.At = int(at)
 	sc.F.Crash.Mode, _ = v.Extra["crash_mode"].(string)
+	sc.F.Hold, _ = v.Extra["hold"].(string)
+	ra, _ := v.Extra["release_at"].(float64)
+	sc.F.ReleaseAt = int(ra)
 	out, p := bubble(t, sc)
 	fmt.Printf("replay: ops=%v %s\n  crashed=%v %s during %q\n  accepted stream: %s\n", sc.Ops, sc.F.String(), out.Crashed, out.CrashDesc, out.CrashOp, out.Stream)
 	if p != "" {
